@@ -3,10 +3,10 @@
 (*   glyf (raw bytes of the glyph record, simple glyphs only), segs (the library's outline,        *)
 (*   per contour, as cyclic segment lists in doubled coordinates, built by the harness from the     *)
 (*   MoveTo/LineTo/QuadTo stream), ext (GlyphExtents x 1), adv, and the hmtx/head facts.            *)
-EXTENDS Glyf, TLC, Json, IOUtils
+EXTENDS Glyf, SequencesExt, TLC, Json, IOUtils
 VARIABLES l, fails, stats
 Trace == ndJsonDeserialize(IOEnv.VERIF_TRACE)
-Init == l = 1 /\ fails = {} /\ stats = [n |-> 0, outlines |-> 0, nontriv |-> 0]
+Init == l = 1 /\ fails = {} /\ stats = [n |-> 0, outlines |-> 0, nontriv |-> 0, composites |-> 0]
 F(name, b) == IF b THEN {} ELSE {name}
 ToSeg(s) == IF s[1] = "L" THEN << "L", << s[2], s[3] >>, << s[4], s[5] >> >> ELSE << "Q", << s[2], s[3] >>, << s[4], s[5] >>, << s[6], s[7] >> >>
 (* Rasterizer convention followed by the reference shaper: the outline may be translated            *)
@@ -24,13 +24,39 @@ OutlineEq(e) == OutlineAt(e, 0) \/ OutlineAt(e, e.lsb - XMin(e.glyf))
 ExtentsEq(e) == LET x == Extents(e.glyf) IN
                 IF NumContours(e.glyf) = 0 THEN e.ext = << 0, 0, 0, 0 >>
                 ELSE e.ext[2] = x[2] /\ e.ext[3] = x[3] /\ e.ext[4] = x[4] /\ e.ext[1] \in {x[1], e.lsb}
+(* ---- composite glyphs made of simple components placed by x/y offsets, without scaling: the outline  *)
+(* is the sequence of the components' contours, each translated by its offset. The event carries the    *)
+(* raw records of the referenced components (parts); their glyph ids must be the ones the specification *)
+(* decodes from the composite record (else the harness fetched the wrong records).                      *)
+Flatten(ss) == FoldLeft(LAMBDA acc, x : acc \o x, << >>, ss)
+CompJudged(e) == LET cs == Components(e.glyf) IN
+                 /\ ~e.simple /\ Len(e.parts) > 0 /\ Len(cs) = Len(e.parts)
+                 /\ \A i \in DOMAIN cs : cs[i].xy /\ ~cs[i].scaled /\ NumContours(e.parts[i].glyf) >= 0
+                                          /\ \A c \in 1..NumContours(e.parts[i].glyf) : Len(Contour(e.parts[i].glyf, Points(e.parts[i].glyf), c)) >= 1
+PartsAgree(e) == LET cs == Components(e.glyf) IN \A i \in DOMAIN cs : cs[i].gid = e.parts[i].gid
+CompOutlineAt(e, dx0) ==
+  LET cs == Components(e.glyf)
+      want == Flatten([i \in DOMAIN cs |-> Contours(e.parts[i].glyf, cs[i].dx + dx0, cs[i].dy)])
+  IN /\ Len(e.segs) = Len(want)
+     /\ \A c \in DOMAIN want : SameCycle(CyclicSegments(want[c]), [j \in DOMAIN e.segs[c] |-> ToSeg(e.segs[c][j])])
+(* horizontal placement: as decoded, or shifted so that xMin meets the left side bearing of the glyph - or *)
+(* of the component whose metrics the composite uses (USE_MY_METRICS)                                     *)
+CompShifts(e) == LET cs == Components(e.glyf) IN
+                 {0, e.lsb - XMin(e.glyf)} \cup {e.parts[i].lsb - XMin(e.parts[i].glyf) : i \in {j \in DOMAIN cs : cs[j].mymetrics}}
+CompOutlineEq(e) == \E dx0 \in CompShifts(e) : CompOutlineAt(e, dx0)
+CompExtentsEq(e) == LET x == Extents(e.glyf) IN
+                    \/ Len(e.segs) = 0
+                    \/ (e.ext[2] = x[2] /\ e.ext[3] = x[3] /\ e.ext[4] = x[4] /\ e.ext[1] \in {x[1]} \cup {x[1] + d : d \in CompShifts(e)})
 Step == /\ l <= Len(Trace)
         /\ LET e == Trace[l]
                bad == F("Upem", e.upem = U16(e.head, 18)) \cup F("Advance", e.adv = HAdvance(e.gid, e.nhm, e.advgid, e.advlast))
-                      \cup (IF e.simple THEN F("Outline", OutlineEq(e)) \cup F("Extents", ExtentsEq(e)) ELSE {})
+                      \cup (IF e.simple THEN F("Outline", OutlineEq(e)) \cup F("Extents", ExtentsEq(e))
+                            ELSE IF CompJudged(e) THEN (IF PartsAgree(e) THEN F("CompositeOutline", CompOutlineEq(e)) \cup F("CompositeExtents", CompExtentsEq(e)) ELSE {"HarnessParts"})
+                            ELSE {})
            IN /\ fails' = fails \cup {[line |-> l, pred |-> b] : b \in bad}
               /\ stats' = [stats EXCEPT !.n = @ + 1, !.outlines = @ + (IF e.simple THEN 1 ELSE 0),
-                                         !.nontriv = @ + (IF e.simple /\ Len(e.segs) >= 1 THEN 1 ELSE 0)]
+                                         !.nontriv = @ + (IF (e.simple \/ CompJudged(e)) /\ Len(e.segs) >= 1 THEN 1 ELSE 0),
+                                         !.composites = @ + (IF CompJudged(e) THEN 1 ELSE 0)]
         /\ l' = l + 1
 Next == Step
 Keep == TLCSet(1, fails) /\ TLCSet(2, stats)
